@@ -22,6 +22,7 @@ CHECKS = {
   "C10": ("vcheck", "metamorphic testing: permutations of map pairs (CBOR encoding / JSON text) and of disjoint-key schema members must not change the verdict; repeated keys compared with the reference semantics; worker-process isolation; proptest shrinking", "3/C10"),
   "C11": ("vcheck", "differential testing against a reference RFC 8949 decoder: exhaustive enumeration of short byte strings + structured/mutated generated encodings, proptest shrinking", "3/C11"),
   "C12": ("vcheck", "property-based testing from a name plan: generated rule lists with colliding names, operators, generics, sockets and reference slots at every syntactic position; expected duplicate / undefined-reference verdicts, messages and positions computed from the plan; proptest shrinking", "3/C12"),
+  "C13": ("vcheck", "differential testing against a reference mapping: generated field tables rendered as RFC 4180 text (quoting, doubled quotes, embedded separators / line breaks, CRLF/LF, ragged rows, header flag); validate_csv_from_str vs validate_json_from_str on the harness-built mapped document; proptest shrinking", "3/C13"),
   "C14": ("vcheck", "property-based testing of error reporting: non-empty error lists, JSON locations resolved against the document, distinct error kinds per fault, determinism across repetition / 8 concurrent threads / a fresh process", "3/C14"),
 }
 
